@@ -34,10 +34,12 @@ def pkt_chunks(rng, uid, n, nonpkt_p=0.0):
     return out
 
 
-def conn_case(cfg, script, spont, locked0, prefix=None, policy=None, preempt=None, kind="", cap=2500):
+def conn_case(cfg, script, spont, locked0, prefix=None, policy=None, preempt=None, kind="", cap=2500, order=None):
     c = {"cfg": cfg, "script": script, "spont": spont, "locked0": locked0, "cap": cap, "kind": kind}
     if policy:
         c["policy"], c["preempt"] = policy, preempt or []
+        if order:
+            c["order"] = order
     else:
         c["prefix"], c["tail"] = prefix or [], True
     return c
@@ -62,9 +64,9 @@ def gen_lock_script(rng):
 
 def gen_conn_cases(ctx):
     rng, cases = ctx.rng, []
-    n_lock = 700 if ctx.thorough else 90
-    n_sync = 500 if ctx.thorough else 60
-    n_mixed = 300 if ctx.thorough else 30
+    n_lock = 1200 if ctx.thorough else 220
+    n_sync = 900 if ctx.thorough else 140
+    n_mixed = 500 if ctx.thorough else 60
     for _ in range(n_lock):
         uid = U.Uid()
         cfg = {"conn": True, "virt": rng.random() < 0.3, "tmo": 3}
@@ -103,24 +105,35 @@ def gen_conn_cases(ctx):
     sysh = [({"conn": True, "virt": False, "tmo": 3}, [["unlock"]], [[[0, 1, True]], [[0, 2, True]]], True, "lock"),
             ({"conn": True, "virt": False, "tmo": 3}, [["lock"], ["unlock"]], [[[0, 1, True]], [[0, 2, True]]], False, "lock"),
             ({"conn": True, "virt": False, "tmo": 3}, [["sync", 1], ["wait", 1], ["wait", 1]], [[[0, 1, True]], [[0, 2, True]]], False, "sync")]
+    PRODUCER_FIRST = [EMIT, R, CIO, A]
     for cfg, script, spont, l0, kind in sysh:
         L = 70
         cases.append(conn_case(cfg, script, spont, l0, policy="np", preempt=[], kind=kind))
         singles = [(k, t) for k in range(0, L) for t in targets]
         if not ctx.thorough:
-            singles = rng.sample(singles, 70)
+            singles = rng.sample(singles, 40)
         for k, t in singles:
             cases.append(conn_case(cfg, script, spont, l0, policy="np", preempt=[[k, t]], kind=kind))
-        for _ in range(600 if ctx.thorough else 60):
+        for _ in range(600 if ctx.thorough else 30):
             k1, k2 = sorted(rng.sample(range(L), 2))
             cases.append(conn_case(cfg, script, spont, l0, policy="np",
                                    preempt=[[k1, rng.choice(targets)], [k2, rng.choice(targets)]], kind=kind))
+        # the packets first, then the application: every point at which the application cuts in
+        # (one pre-emption), and every point at which it cuts in for ONE step before the I/O
+        # thread resumes (two adjacent pre-emptions) -- the check-then-act windows
+        cases.append(conn_case(cfg, script, spont, l0, policy="np", preempt=[], kind=kind, order=PRODUCER_FIRST))
+        for k in range(0, 36):
+            cases.append(conn_case(cfg, script, spont, l0, policy="np", preempt=[[k, A]], kind=kind, order=PRODUCER_FIRST))
+            cases.append(conn_case(cfg, script, spont, l0, policy="np", preempt=[[k, A], [k + 1, CIO]], kind=kind, order=PRODUCER_FIRST))
+            if ctx.thorough:
+                cases.append(conn_case(cfg, script, spont, l0, policy="np", preempt=[[k, A], [k + 2, CIO]], kind=kind, order=PRODUCER_FIRST))
+                cases.append(conn_case(cfg, script, spont, l0, policy="np", preempt=[[k, CIO], [k + 1, A]], kind=kind, order=PRODUCER_FIRST))
     return cases
 
 
 def gen_bridge_cases(ctx):
     rng, cases = ctx.rng, []
-    n = 600 if ctx.thorough else 80
+    n = 1500 if ctx.thorough else 200
     acts = [A] * 5 + [R] * 5 + [CIO] * 4 + [XIO] * 4 + [EMIT] * 2
     for i in range(n):
         uid = U.Uid()
@@ -194,7 +207,8 @@ def oracle_conn(case, res):
         if not obs["locked"] and q and obs["adone"] and io_idle:
             out.append(("packets stranded in the holding queue of an unlocked connector", [], q))
     # synchronous mode: [sync 1, wait...]
-    if script and script[0] == ["sync", 1] and all(op[0] == "wait" for op in script[1:]):
+    if script and script[0] == ["sync", 1] and all(op[0] == "wait" for op in script[1:]) \
+            and all(f[2] for f in U.msgs_of(case.get("spont", []))):
         e = [list(f) for f in info["emitted"]]
         got = [m for m in obs["retrieved"] if m is not None]
         seen = obs["delivered"] + got + obs["sync_q"]
@@ -212,8 +226,8 @@ def bridge_class(case, res):
     """The failing case belongs to the known class iff the bridge was created while packets were
     held / pending in the old connector, or while the device was emitting."""
     sched = res["sched"]
-    last_a = max([i for i, a in enumerate(sched) if a == A], default=-1) if res["obs"]["done"] else len(sched)
-    # the application thread's last EFFECTIVE step: conservatively, its last scheduled step
+    done_at = res["info"].get("done_at")
+    last_a = done_at if done_at is not None else len(sched)      # index at which Bridge.__init__ returned
     first_emit = min([i for i, a in enumerate(sched) if a == EMIT], default=None)
     under_traffic = bool(case.get("held")) or bool(case.get("ev0")) or (first_emit is not None and first_emit < last_a)
     return KEY_BRIDGE if under_traffic else None
